@@ -52,7 +52,8 @@ def check_h(desc, acc, detour):
         except Exception as e:
             bad("clique_projection/exception", "raised %s: %s" % (type(e).__name__, e))
     # ---- line graph ---------------------------------------------------------------------------------------
-    for dist, ss in (("intersection", [1, 2, 3]), ("jaccard", JACCARD_S)):
+    attained = {Fraction(len(set(a) & set(b)), len(set(a) | set(b))) for a, b in itertools.combinations(E, 2) if set(a) & set(b)}
+    for dist, ss in (("intersection", [1, 2, 3]), ("jaccard", sorted(set(JACCARD_S) | attained))):
         for s in ss:
             for weighted in (False, True):
                 acc.evaluations += 1
@@ -80,6 +81,30 @@ def check_h(desc, acc, detour):
                     acc.outcomes.add(hash(repr(sorted(map(sorted, want)))))
                 except Exception as e:
                     bad("line_graph/exception", "raised %s: %s" % (type(e).__name__, e))
+    # ---- the same object after an in-place change (every projection above has been computed once on it) -----------
+    if detour is False and N:
+        xn = "zz8" if isinstance(N[0], str) else 10 ** 6 + 1
+        new = tuple(sorted((N[0], xn)))
+        for sname, act, E2 in (("add_edge", lambda: h.add_edge(new), E + [new]), ("remove_edge", lambda: h.remove_edge(new), E)):
+            acc.evaluations += 1
+            try:
+                act()
+                g, ids = P.line_graph(h, distance="intersection", s=1, weighted=False)
+                got = {frozenset((ids[a], ids[b])) for a, b in g.edges()}
+                want = {frozenset((a, b)) for a, b in itertools.combinations(E2, 2) if set(a) & set(b)}
+                if sorted(ids.values(), key=repr) != sorted(E2, key=repr) or got != want:
+                    bad("line_graph/second-call", "after %s on the same object: ids %r edges %r; definition %r" % (sname, ids, got, want))
+                g2 = P.clique_projection(h, keep_isolated=True)
+                wantp = {frozenset(p) for e in E2 for p in itertools.combinations(e, 2)}
+                if {frozenset(p) for p in g2.edges()} != wantp:
+                    bad("clique_projection/second-call", "after %s on the same object: %r; definition %r" % (sname, list(g2.edges()), wantp))
+                g3, ids3 = P.bipartite_projection(h)
+                got3 = {frozenset((repr(ids3[a]), repr(ids3[b]))) for a, b in g3.edges()}
+                if got3 != {frozenset((repr(n), repr(e))) for e in E2 for n in e}:
+                    bad("bipartite_projection/second-call", "after %s on the same object: %r" % (sname, got3))
+            except Exception as e:
+                bad("second-call/exception", "raised %s: %s" % (type(e).__name__, e))
+                break
     # ---- simplicial complex ---------------------------------------------------------------------------------
     acc.evaluations += 1
     try:
@@ -100,7 +125,8 @@ def check_d(desc, acc, detour):
     E = [(tuple(sorted(s)), tuple(sorted(t))) for s, t in desc["edges"]]
     base = dict(desc=C.show(desc), detour=detour)
     size = len(E)
-    for dist, ss in (("intersection", [1, 2]), ("jaccard", JACCARD_S)):
+    attained = {Fraction(len(set(a[1]) & set(b[0])), len(set(a[1]) | set(b[0]))) for a in E for b in E if a != b and set(a[1]) & set(b[0])}
+    for dist, ss in (("intersection", [1, 2]), ("jaccard", sorted(set(JACCARD_S) | attained))):
         for s in ss:
             for weighted in (False, True):
                 for call in ("function", "method"):
@@ -134,14 +160,40 @@ def check_d(desc, acc, detour):
 
 
 def check_one(desc, acc):
-    for detour in (False, True, 2):
+    for detour in (False, True, 2, "shrink"):
         if desc["kind"] == "H":
             check_h(desc, acc, detour)
         else:
             check_d(desc, acc, detour)
 
 
+WIDE = [(1, 2, 3, 4), (4, 5, 6), (3, 4, 5), (4, 5), (1, 2, 3, 4, 5), (5, 6, 7), (1, 5), (4, 5, 6, 7), (2, 3, 4, 5, 6), (1, 7)]
+
+
+def content_h(es):
+    nodes = tuple(sorted({n for e in es for n in e}))
+    return {"kind": "H", "nodes": nodes, "edges": tuple(es), "weighted": False, "weights": None, "nmd": {}, "emd": {}, "hmd": {}}
+
+
 def corpus(tier):
+    # pairs / triples of wider hyperedges: Jaccard values with denominators 5, 6, 7 are attained (thresholds equal to them are used)
+    for r in (2, 3):
+        for es in itertools.combinations(WIDE, r):
+            yield content_h(es)
+    wide_d = [((1, 2), (3, 4, 5)), ((3, 6), (1, 2)), ((5,), (6,)), ((6,), (1, 2, 3, 4, 5)), ((3, 4, 5, 6), (1,)), ((1, 2, 3), (4, 5, 6)), ((4,), (1, 2))]
+    for r in (2, 3):
+        for es in itertools.combinations(wide_d, r):
+            nodes = tuple(sorted({n for s, t in es for n in s + t}))
+            yield {"kind": "D", "nodes": nodes, "edges": tuple(es), "weighted": False, "weights": None, "nmd": {}, "emd": {}, "hmd": {}}
+    # many more hyperedges than nodes: every family of hyperedges over three nodes, and the densest ones over four
+    all3 = [e for r in (1, 2, 3) for e in itertools.combinations((1, 2, 3), r)]
+    for r in range(4, 8):
+        for es in itertools.combinations(all3, r):
+            yield content_h(es)
+    all4 = [e for r in (1, 2, 3, 4) for e in itertools.combinations((2, 5, 7, 11), r)]
+    for r in ((15, 14) if tier == "quick" else (15, 14, 13)):
+        for es in itertools.combinations(all4, r):
+            yield content_h(es)
     if tier == "quick":
         yield from C.hypergraph_contents((2, 5, 7, 11), isolated=(13,), lo=1, hi=4, max_edges=3, weighted=(False,), md_styles=(0,))
         yield from C.hypergraph_contents(("a", "b", "c"), isolated=("d",), lo=1, hi=3, max_edges=3, weighted=(True,), md_styles=(0,))
@@ -166,10 +218,13 @@ def run(ctx):
         "rule": "every Hypergraph over {2,5,7,11}+isolated 13 with <=3 (quick) / <=5 (thorough) hyperedges of size 1-4 (thorough: also size 2-5 over 5 nodes), "
                 "direct and detour builds; bipartite, clique (keep_isolated F/T), line graph x {intersection s=1,2,3; jaccard s in {1/4,1/3,1/2,2/3,1}} x "
                 "weighted F/T, simplicial complex; directed line graph on every DirectedHypergraph over 3 nodes with <=3 (quick) / all 2^12 (thorough) "
-                "hyperedges. Thresholds are attainable similarity values, so both sides of every >= are hit with equality (exact rational oracle). "
+                "hyperedges. Thresholds are attainable similarity values (a fixed menu plus every value attained inside the content itself; pairs and triples of ten "
+                "wider hyperedges over seven nodes give denominators 5-7), so both sides of every >= are hit with equality (exact rational oracle). Every family "
+                "of >= 4 of the 7 hyperedges over three nodes and the densest families over four nodes (many more hyperedges than nodes). After the projections "
+                "of an object have been computed, a hyperedge is added to / removed from the same object and they are computed again. "
                 "Non-trivial = a line graph with >= 1 edge (distinct by edge list, distance, s, weighted).",
     }
-    return ctx.finish(cov, assumptions=["jaccard thresholds are passed as floats of exact rationals p/q with q<=4: float(p/q) compares correctly with len/len"])
+    return ctx.finish(cov, assumptions=["jaccard thresholds are passed as the floats nearest to exact rationals p/q (q <= 7), i.e. exactly what one correctly rounded division |A&B| / |A|B| yields: a pair whose similarity equals the threshold must be joined"])
 
 
 def replay(witness, key=None):
